@@ -403,6 +403,11 @@ theorem dispatch_call_spec (rcBlank : Int) (toks : List Str) (tables : List (Lis
       obtain ⟨t, i, tbl, hk, htab, hi, hfirst, hprev⟩ := findCmdTables_some_spec t0 tables 0 k drop hf
       exact ⟨t0, rest, t, i, tbl, drop, rfl, by omega, htab, hi, hfirst, hprev, hc.2.1.symm, hc.2.2.symm, rfl⟩
 
+/-- before the repairs a blank line made the dispatchers use `argv[0]` without
+ever having stored it -/
+theorem shellExecuteOrig_blank_witness :
+    shellExecuteOrig ENOENT [SP, SP, NUL] [([[0x61#8]], 0)] = none := by decide
+
 -- a line with tokens, a table that names the first one
 example : mshellExecute [0x61#8, 0x20#8, 0x62#8, NUL] [[0x62#8], [0x61#8]]
     = some ⟨0, some (1, 2, [[0x61#8], [0x62#8]])⟩ := by decide
@@ -447,6 +452,12 @@ theorem pathNext_components (p junk : Str) (hn : NUL ∉ p) :
     refine ⟨h, t, h1, ?_, ?_⟩
     · simp only [hoff, hdrop, h2, h3]
     · simp only [hoff, h2, ← List.drop_drop, hdrop, h4]
+
+/-- before the repair `path_is_single_dot` read the byte behind the terminator
+whenever it was called at the end of a string (every path_next / path_iterate
+walk ends there) -/
+theorem isSingleDotOrig_overread_witness :
+    isSingleDotOrig [NUL] = none ∧ isSingleDot [NUL] = some false := by decide
 
 /-- `path_iterate`: NULL on the empty path, else the cursor at the next real
 component behind the first piece (a leading slash is a piece of its own) -/
